@@ -321,6 +321,42 @@ func (e *env) crafted(phase string, base outcome) {
 				})
 				e.judge(phase+"forged-entry-key", fmt.Sprintf("entry %d of %d names the %s key (signatures untouched), blob signed by that key", ei, e.hops, who), o, nil)
 			}
+			// the last entry rewritten to name the forger AND re-signed by the forger (a well-formed signature, only by
+			// the wrong key) - alone, and after the forger had the server look at the very same entry inside a
+			// throw-away voucher of his own making in which that signature is the right one (whatever a server
+			// remembers about signatures it has seen must not carry over to another key)
+			resigned := func(v *fdo.Voucher) *fdo.Voucher {
+				n := len(v.Entries)
+				if n == 0 || v.Entries[n-1].Payload == nil {
+					return nil
+				}
+				ent := v.Entries[n-1]
+				pl := *ent.Payload
+				pl.Val.PublicKey = *fpk
+				ent.Payload = &pl
+				if err := ent.Sign(fk, nil, nil, signOpts(fk, e.kind.PSS)); err != nil {
+					return nil
+				}
+				v.Entries = append(append([]cose.Sign1Tag[fdo.VoucherEntryPayload, []byte]{}, v.Entries[:n-1]...), ent)
+				return v
+			}
+			for _, primed := range []bool{false, true} {
+				if primed {
+					o = e.attempt(e.honestClient(), func(body []byte) []byte {
+						return e.craft(body, func(v *fdo.Voucher) {
+							if resigned(v) != nil {
+								v.Header.Val.ManufacturerKey = *fpk
+								v.Entries = v.Entries[len(v.Entries)-1:]
+							}
+						}, fk, 0)
+					})
+					e.judge(phase+"forged-priming-voucher", "throw-away voucher: header names the "+who+" key, single entry signed by it", o, nil)
+				}
+				o = e.attempt(e.honestClient(), func(body []byte) []byte {
+					return e.craft(body, func(v *fdo.Voucher) { resigned(v) }, fk, 0)
+				})
+				e.judge(phase+"forged-entry-resigned", fmt.Sprintf("last entry names the %s key and is signed by it (primed=%v), blob signed by that key", who, primed), o, nil)
+			}
 			// the last entry duplicated, the duplicate naming the forger (an extension nobody signed)
 			o = e.attempt(e.honestClient(), func(body []byte) []byte {
 				return e.craft(body, func(v *fdo.Voucher) {
